@@ -255,7 +255,7 @@ theorem C09_unresolved_real (env : Env) (t : Tree) (path : Path) (l : List Nat)
 theorem C09_stack_invariant (s : FStack) (frames : List (List (Nat × Nat))) (decls : List (Nat × Nat))
     (h : FrameInv s.top frames) (hd : (decls.map Prod.fst).Nodup) :
     FrameInv (s.push decls).top (decls :: frames) ∧ (s.push decls).pop (!decls.isEmpty) = s :=
-  ⟨h.push decls hd, FStack.pop_push s decls⟩
+  ⟨h.push decls hd, FStack.pop_push_sc s decls⟩
 
 /-! ### `unresolved_namespaces` and `inherited_prefixes` over the whole subtree -/
 
